@@ -42,7 +42,7 @@ func vParam(allowEch, allowFree bool) string {
 		return "ipv4hint=1.2.3.4"
 	}
 	// free-form parameter: symbolic bytes over the alphabet {e,c,h,=,",a,1}
-	n := vInt(1, 3+vTier())
+	n := vInt(1, 3)
 	b := vBytes(n)
 	for _, c := range b {
 		vAssume(c == 'e' || c == 'c' || c == 'h' || c == '=' || c == '"' || c == 'a' || c == '1')
@@ -70,7 +70,10 @@ func verifC20Publish() {
 	table := []vRec{}
 	nrec := vInt(1, 2)
 	for i := 0; i < nrec; i++ {
-		np := vInt(0, 2+vTier())
+		np := vInt(0, 2)
+		if i == 1 {
+			np = vInt(0, 1) // thorough tier: the second record varies too, with at most one parameter
+		}
 		val := ""
 		hasEch := false
 		if i == 1 && vTier() == 0 {
@@ -79,7 +82,7 @@ func verifC20Publish() {
 			val = `alpn="h2" ech="T0xE" port=8443`
 		}
 		for j := 0; j < np; j++ {
-			p := vParam(true, j == 0 || vTier() > 0)
+			p := vParam(true, j == 0)
 			_ = hasEch // (several ech entries may occur: "arbitrary parameter strings")
 			if j > 0 {
 				val += " "
@@ -121,7 +124,7 @@ func verifC20Publish() {
 	}
 	cl := []byte{0, 1, 2} // contents are irrelevant to the property (base64 is table-driven); "AAEC"
 	want64 := base64.StdEncoding.EncodeToString(cl)
-	nt := vInt(1, 2+vTier())
+	nt := vInt(1, 2)
 	var targets []Target
 	for i := 0; i < nt; i++ {
 		if i == 1 && vTier() == 0 {
